@@ -62,7 +62,14 @@ Boundary == <<
   << EV("E", << L("x", "int16"), L("y", "int8") >>), EV("A", << L("p", "int64"), EV("E", << L("x", "int16"), L("y", "int8") >>) >>), L("z", "int32") >>,
   << EV("E", << L("x", "int16"), L("y", "int8") >>), NS("X", "E", << L("x", "int16"), L("y", "int8") >>), EP("P", << L("q", "int8"), EV("E", << L("x", "int16"), L("y", "int8") >>) >>), L("z", "int8") >>,
   \* 27 interface-typed fields (their values include non-nil interfaces holding nil pointers / maps / slices / funcs)
-  << L("A", "any"), L("B", "fmt.Stringer"), L("C", "int8"), EV("E1", << L("D", "any"), L("F", "fmt.Stringer") >>) >>
+  << L("A", "any"), L("B", "fmt.Stringer"), L("C", "int8"), EV("E1", << L("D", "any"), L("F", "fmt.Stringer") >>) >>,
+  \* 28, 29 maps that differ in the key type only and channels that differ in the direction only (the wanted one is
+  \*        never the first); and a struct that has just one of each family (the close types are absent)
+  << L("A", "map[string]int"), L("B", "map[int]int"), L("C", "chan int"), L("D", "<-chan int"), L("E", "chan<- int"), L("F", "map[int8]int") >>,
+  << L("A", "int8"), L("B", "map[string]int"), EV("E1", << L("C", "<-chan int"), L("D", "int64") >>) >>,
+  \* 30, 31 defined types over predeclared ones next to their underlying types
+  << L("A", "string"), L("B", "opticsdrv.Label"), L("C", "opticsdrv.Tag"), L("D", "uint8"), L("E", "opticsdrv.Byte8"), L("F", "opticsdrv.Count"), L("G", "int64") >>,
+  << L("A", "opticsdrv.Tag"), EV("E1", << L("B", "opticsdrv.Byte8"), L("C", "opticsdrv.Count") >>), L("D", "opticsdrv.Label") >>
 >>
 BoundarySet == {Boundary[i] : i \in 1..Len(Boundary)}
 ====
